@@ -72,6 +72,45 @@ ASSUMPTIONS = ['no type alternatives in the explored models: the type-table clau
 
 KNOWN_ID = 'C15-F0'
 WIT_EXPECT: dict = {}
+# which of the proposed repairs (notes/fixes/C15-*.patch) the tree under test contains; the Lean port takes them as
+# `Ctx.fx`.  Set by detect_fixes() before any model is judged.
+FX: dict = {'shared': False, 'repSeq': False, 'head10': False, 'edc10': False}
+FX_WITNESS = {
+    # flag: (XSD 1.1?, model, build outcome (True = accepted) that shows the repair is in the tree)
+    'shared': (False, ('g', 'sequence', 1, 1, [('g', 'sequence', 1, 1, [('e', 'a', 0, 1)], 'ref'),
+                                               ('g', 'sequence', 1, 1, [('e', 'a', 0, 1)], 'ref')]), False),
+    'repSeq': (False, ('g', 'sequence', 1, 2, [('e', 'a', 1, 1), ('e', 'a', 0, 1)]), False),
+    'head10': (False, ('g', 'choice', 1, 1, [('l', 'h', 1, 1, 'string'), ('e', 's', 1, 1)]), True),
+    'edc10': (False, ('g', 'sequence', 1, 1, [('e', 'h', 1, 1), ('l', 's', 1, 1, 'int')]), False),
+}
+
+
+def detect_fixes() -> dict:
+    """replays one witness per proposed repair on the real code: (G, G) with G = (a?) [C15-F3], (a, a?){1,2}
+    [repeated sequence], XSD 1.0 (h:string | s) with a LOCAL h [is_overlap head guard], XSD 1.0 (h, s:int) [EDC
+    through the substitution group]"""
+    import warnings
+    warnings.simplefilter('ignore')
+    for k, (v11, ast, accepted_when_fixed) in FX_WITNESS.items():
+        _, obs = observe([ast], v11)
+        ob = obs[0]
+        if ob is None or ob['other']:
+            raise RuntimeError(f'C15: witness of repair {k} could not be built')
+        FX[k] = (ob['kind'] is None) == accepted_when_fixed
+    return FX
+
+
+def variant() -> str:
+    on = [k for k, v in FX.items() if v]
+    return 'pinned' if not on else ('patched' if len(on) == len(FX) else 'partial:' + '+'.join(on))
+
+
+def wit_expect(e: dict) -> dict:
+    """expected outcome of a theorem witness on the tree under test: `impl_ok` may depend on one repair flag"""
+    out = {k: e[k] for k in ('deterministic', 'edc')}
+    io = e['impl_ok']
+    out['impl_ok'] = (io['patched'] if FX[io['repair']] else io['pinned']) if isinstance(io, dict) else io
+    return out
 FUEL = 3000
 PINNED_FILE = VERIF / 'corpus' / 'C15' / 'pinned-deviations.json'
 _pinned: Optional[dict] = None
@@ -96,7 +135,7 @@ def known_match(case: Any, detail: Any) -> Optional[str]:
     if detail.get('port_ok') is not None:
         if detail['port_ok'] != detail.get('impl_ok'):
             return None
-        if detail.get('shared') and detail.get('impl_ok'):
+        if detail.get('shared') and detail.get('impl_ok') and not FX['shared']:
             return 'C15-F3'       # a particle object shared by two places of the model is never compared with itself
         return KNOWN_ID
     return KNOWN_ID if case.get('model') in pinned().get(case.get('v'), ()) else None
@@ -192,7 +231,7 @@ def run_batch(ctx: Ctx, drv: Optional[Driver], models: list[tuple], v11: bool, f
         elif intro.open_content is not None:
             ctx.mismatch('unexpected open content', {'model': c15.show(ast)}, intro.open_content, None)
             continue
-        reqs.append(intro.request(v11, FUEL))
+        reqs.append(dict(intro.request(v11, FUEL), fx=FX))
         pend.append((ast, ob, full))
     answers = drv.query(reqs) if drv is not None and reqs else [None] * len(reqs)
     for (ast, ob, full), ans in zip(pend, answers):
@@ -259,6 +298,7 @@ def run_batch(ctx: Ctx, drv: Optional[Driver], models: list[tuple], v11: bool, f
         if fam == 'theorem-witnesses':
             exp = WIT_EXPECT.get((case['v'], json.dumps(ast, default=list)))
             got = {'impl_ok': impl_ok, 'deterministic': det, 'edc': ans['edc']}
+            exp = wit_expect(exp) if exp is not None else None
             if exp is not None and exp != got:
                 ctx.mismatch('a counter-example theorem of Props/C15.lean does not replay on the real code', case, got, exp)
             ctx.count('theorem-witness-replayed')
@@ -332,6 +372,9 @@ def run(ctx: Ctx, driver_ok: bool) -> None:
     import warnings
     warnings.simplefilter('ignore')        # XMLSchemaTypeTableWarning of the non-strict consistency clause
     drv = Driver('drv_c15') if driver_ok else None
+    detect_fixes()
+    ctx.notes.append('algorithm variant of the tree under test: %s %s' % (variant(), json.dumps(FX)))
+    ctx.count('variant:' + variant())
     if drv is None:
         ctx.notes.append('Lean driver unavailable: property judged by the reference automaton on the seed-independent '
                          'families only')
@@ -359,6 +402,7 @@ def search(ctx: Ctx) -> None:
     deadline = time.time() + (240 if saved == 'quick' else 600)
     ctx.budget_s += 700
     drv = Driver('drv_c15') if have_driver() else None
+    detect_fixes()
     try:
         for fam, v11, models in families(ctx, drv is not None):
             for i in range(0, len(models), 50):
@@ -409,6 +453,8 @@ def replay(ctx: Ctx, obj: dict) -> int:
     case = obj.get('input') or {}
     if 'ast' not in case:
         return 0
+    detect_fixes()
+    print('algorithm variant of the tree under test:', variant(), FX)
     full = tup(case['ast'])
     ast = full[3] if full[0] == 'oc' else full
     v11 = case['v'] == '1.1'
@@ -419,7 +465,7 @@ def replay(ctx: Ctx, obj: dict) -> int:
         print('judgement: property violated (a lax build records model errors, it does not raise)')
         return 1
     ob = obs[0]
-    ans = Driver('drv_c15').query([ob['intro'].request(v11, FUEL)])[0]
+    ans = Driver('drv_c15').query([dict(ob['intro'].request(v11, FUEL), fx=FX)])[0]
     so = strict_outcome(full, v11)
     impl_ok = ob['kind'] is None
     print('implementation: lax build model error =', ob['kind'], ' strict build =', so)
